@@ -1280,6 +1280,10 @@ impl Handler {
             // the request that was used to re-establish the session handshake.
             self.replay_active_requests(&node_address, message_nonce)
                 .await;
+            // Requests may have been queued behind the WHOAREYOU this handshake answered (a
+            // challenge can be outstanding while a session exists). Release them as well,
+            // otherwise nothing ever sends or fails them.
+            self.send_pending_requests(&node_address).await;
         } else {
             self.sessions.insert(node_address.clone(), session);
             METRICS
